@@ -18,6 +18,8 @@ EXPLANATION = (
   "every tag the SRT writer emits (srt/style.py literals) is one the reader's handle_starttag has a styling branch for."
   " (STATE-alias / STATE-global) no function of the anchored modules mutates a module- or class-level container, rebinds module / class state or mutates a mutable default argument, so a result never depends on earlier calls;"
   " (LINT-i) as in C04;"
+  ' (DEF-local) no local of the SRT reader is read unassigned; (FIN-timeexpr) the cue time arithmetic equals h*3600 + m*60 + s + ms/1000 on a grid; (NUL-parent) parent walks stop at the paragraph;'
+  ' (ORD-br / PAIR-span) a line break is appended to the open element before text continues, and every opened span is closed by its end tag;'
 )
 RULE_TEXT = "EXA/DEF/NUL: per call site / function; FMT: per sample timing line; TAB-tags: per writer tag literal"
 UNDECIDED = ["tag scoping for nested/adjacent tags", "line splitting and blank-line handling", "counter tolerance"]
@@ -44,7 +46,9 @@ def check_fmt(ctx):
   # the timing line: the element of the returned join that mentions both _begin and _end
   timing = None
   for n in own_nodes(to_string.node):
-    if isinstance(n, ast.BinOp) and isinstance(n.op, ast.Add) and "self._begin" in unparse(n) and "self._end" in unparse(n):
+    if ((isinstance(n, ast.BinOp) and isinstance(n.op, ast.Add)) or isinstance(n, ast.JoinedStr) or
+        (isinstance(n, ast.Call) and isinstance(n.func, ast.Attribute) and n.func.attr == "format" and isinstance(n.func.value, ast.Constant))) \
+        and "self._begin" in unparse(n) and "self._end" in unparse(n):
       if timing is None or len(unparse(n)) < len(unparse(timing)):
         timing = n
   if timing is None:
